@@ -47,6 +47,13 @@ STREAMS = [
     ('latin-1', b'a\xe9\xffb', ('strict',)),
     (None, b'a\xc3\xa9\xff\x00b', ('strict',)),
     ('utf-8', 'x€'.encode('utf-8') * 2, ('strict',)),
+    # the same codecs under other legal spellings of their names, and one more non-ASCII-transparent codec
+    ('utf_16', 'a\U0001d11eb'.encode('utf-16'), ('strict',)),
+    ('UTF16', 'ab\xe9'.encode('utf-16'), ('strict',)),
+    ('u16', 'ab'.encode('utf-16'), ('strict',)),
+    ('utf_32', 'a\xe9'.encode('utf-32'), ('strict',)),
+    ('UTF8', 'a\xe9b'.encode('utf-8'), ('strict',)),
+    ('cp500', 'ab1'.encode('cp500'), ('strict',)),
 ]
 
 
